@@ -353,4 +353,208 @@ theorem Na_h_beta_deriv (v vt : ℝ) (h1 : (-((v - vt) - 17)) / 18 < 20) (h2 : (
     have := Real.exp_pos (-(v - vt - 40.0) / 5.0)
     positivity
 
+/-! ### CaL.q_gate -/
+
+def eCaLqA : Ex :=
+  .mul (.mul (.const 0.055) (eEfun (.div (.sub (.neg .var) (.const 27.0)) (.const 3.8)))) (.const 3.8)
+def eCaLqB : Ex := .mul (.const 0.94) (eExp (.div (.sub (.neg .var) (.const 75.0)) (.const 17.0)))
+
+theorem CaL_q_gate_real (v : ℝ) (h1 : ((-v) - 27.0) / 3.8 ≤ 20) (h2 : ((-v) - 75.0) / 17.0 ≤ 20) :
+    CaL.q_gate v = (eval eCaLqA v, eval eCaLqB v) := by
+  unfold CaL.q_gate efun
+  dsimp only
+  rw [save_exp_real _ h1, save_exp_real _ h2]
+  rfl
+
+theorem CaL_q_gate_dual (v : ℝ) (h1 : ((-v) - 27.0) / 3.8 ≤ 20) (h2 : ((-v) - 75.0) / 17.0 ≤ 20) :
+    CaL.q_gate (⟨v, 1⟩ : Dual ℝ) = (evalDual eCaLqA ⟨v, 1⟩, evalDual eCaLqB ⟨v, 1⟩) := by
+  unfold CaL.q_gate efun
+  dsimp only
+  rw [save_exp_dual _ h1, save_exp_dual _ h2]
+  rfl
+
+theorem CaL_q_alpha_deriv (v : ℝ) (h1 : ((-v) - 27) / 3.8 < 20) (h2 : ((-v) - 75) / 17 < 20) (hv : v ≠ -27) :
+    HasDerivAt (fun v => (CaL.q_gate v).1) ((CaL.q_gate (⟨v, 1⟩ : Dual ℝ)).1.eps) v := by
+  refine kernel_deriv _ eCaLqA _ v {w | ((-w) - 27.0) / 3.8 < 20 ∧ ((-w) - 75.0) / 17.0 < 20} ?_ ?_ ?_ ?_
+  · exact Filter.inter_mem (nhds_lt (fun w => ((-w) - 27.0) / 3.8) (by fun_prop) v 20 (by norm_num at h1 ⊢; linarith))
+      (nhds_lt (fun w => ((-w) - 75.0) / 17.0) (by fun_prop) v 20 (by norm_num at h2 ⊢; linarith))
+  · intro w hw
+    show (CaL.q_gate w).1 = _
+    rw [CaL_q_gate_real w hw.1.le hw.2.le]
+  · rw [CaL_q_gate_dual v (by norm_num at h1 ⊢; linarith) (by norm_num at h2 ⊢; linarith)]
+  · simp only [eCaLqA, eEfun, Defined, eval, true_and, and_true]
+    refine ⟨by norm_num, by norm_num, ?_⟩
+    rw [show (1.0 : ℝ) = 1 by norm_num]
+    apply exp_sub_one_ne_zero
+    intro h0
+    apply hv
+    norm_num at h0
+    linarith
+
+theorem CaL_q_beta_deriv (v : ℝ) (h1 : ((-v) - 27) / 3.8 < 20) (h2 : ((-v) - 75) / 17 < 20) :
+    HasDerivAt (fun v => (CaL.q_gate v).2) ((CaL.q_gate (⟨v, 1⟩ : Dual ℝ)).2.eps) v := by
+  refine kernel_deriv _ eCaLqB _ v {w | ((-w) - 27.0) / 3.8 < 20 ∧ ((-w) - 75.0) / 17.0 < 20} ?_ ?_ ?_ ?_
+  · exact Filter.inter_mem (nhds_lt (fun w => ((-w) - 27.0) / 3.8) (by fun_prop) v 20 (by norm_num at h1 ⊢; linarith))
+      (nhds_lt (fun w => ((-w) - 75.0) / 17.0) (by fun_prop) v 20 (by norm_num at h2 ⊢; linarith))
+  · intro w hw
+    show (CaL.q_gate w).2 = _
+    rw [CaL_q_gate_real w hw.1.le hw.2.le]
+  · rw [CaL_q_gate_dual v (by norm_num at h1 ⊢; linarith) (by norm_num at h2 ⊢; linarith)]
+  · simp only [eCaLqB, eExp, Defined, eval, true_and, and_true]
+    norm_num
+
+/-! ### CaL.r_gate -/
+
+def eCaLrA : Ex := .mul (.const 0.000457) (eExp (.div (.sub (.neg .var) (.const 13.0)) (.const 50.0)))
+def eCaLrB : Ex :=
+  .div (.const 0.0065) (.add (eExp (.div (.sub (.neg .var) (.const 15.0)) (.const 28.0))) (.const 1.0))
+
+theorem CaL_r_gate_real (v : ℝ) (h1 : ((-v) - 13.0) / 50.0 ≤ 20) (h2 : ((-v) - 15.0) / 28.0 ≤ 20) :
+    CaL.r_gate v = (eval eCaLrA v, eval eCaLrB v) := by
+  unfold CaL.r_gate
+  dsimp only
+  rw [save_exp_real _ h1, save_exp_real _ h2]
+  rfl
+
+theorem CaL_r_gate_dual (v : ℝ) (h1 : ((-v) - 13.0) / 50.0 ≤ 20) (h2 : ((-v) - 15.0) / 28.0 ≤ 20) :
+    CaL.r_gate (⟨v, 1⟩ : Dual ℝ) = (evalDual eCaLrA ⟨v, 1⟩, evalDual eCaLrB ⟨v, 1⟩) := by
+  unfold CaL.r_gate
+  dsimp only
+  rw [save_exp_dual _ h1, save_exp_dual _ h2]
+  rfl
+
+theorem CaL_r_alpha_deriv (v : ℝ) (h1 : ((-v) - 13) / 50 < 20) (h2 : ((-v) - 15) / 28 < 20) :
+    HasDerivAt (fun v => (CaL.r_gate v).1) ((CaL.r_gate (⟨v, 1⟩ : Dual ℝ)).1.eps) v := by
+  refine kernel_deriv _ eCaLrA _ v {w | ((-w) - 13.0) / 50.0 < 20 ∧ ((-w) - 15.0) / 28.0 < 20} ?_ ?_ ?_ ?_
+  · exact Filter.inter_mem (nhds_lt (fun w => ((-w) - 13.0) / 50.0) (by fun_prop) v 20 (by norm_num at h1 ⊢; linarith))
+      (nhds_lt (fun w => ((-w) - 15.0) / 28.0) (by fun_prop) v 20 (by norm_num at h2 ⊢; linarith))
+  · intro w hw
+    show (CaL.r_gate w).1 = _
+    rw [CaL_r_gate_real w hw.1.le hw.2.le]
+  · rw [CaL_r_gate_dual v (by norm_num at h1 ⊢; linarith) (by norm_num at h2 ⊢; linarith)]
+  · simp only [eCaLrA, eExp, Defined, eval, true_and, and_true]
+    norm_num
+
+theorem CaL_r_beta_deriv (v : ℝ) (h1 : ((-v) - 13) / 50 < 20) (h2 : ((-v) - 15) / 28 < 20) :
+    HasDerivAt (fun v => (CaL.r_gate v).2) ((CaL.r_gate (⟨v, 1⟩ : Dual ℝ)).2.eps) v := by
+  refine kernel_deriv _ eCaLrB _ v {w | ((-w) - 13.0) / 50.0 < 20 ∧ ((-w) - 15.0) / 28.0 < 20} ?_ ?_ ?_ ?_
+  · exact Filter.inter_mem (nhds_lt (fun w => ((-w) - 13.0) / 50.0) (by fun_prop) v 20 (by norm_num at h1 ⊢; linarith))
+      (nhds_lt (fun w => ((-w) - 15.0) / 28.0) (by fun_prop) v 20 (by norm_num at h2 ⊢; linarith))
+  · intro w hw
+    show (CaL.r_gate w).2 = _
+    rw [CaL_r_gate_real w hw.1.le hw.2.le]
+  · rw [CaL_r_gate_dual v (by norm_num at h1 ⊢; linarith) (by norm_num at h2 ⊢; linarith)]
+  · simp only [eCaLrB, eExp, Defined, eval, true_and, and_true]
+    refine ⟨by norm_num, ?_⟩
+    positivity
+
+/-! ### Km.p_gate (`taumax` is a real constant) -/
+
+def eKmpA : Ex :=
+  .div (.const 1.0) (.add (.const 1.0) (eExp (.mul (.neg (.const 0.1)) (.add .var (.const 35.0)))))
+def eKmpB (taumax : ℝ) : Ex :=
+  .div (.const taumax) (.add (.mul (.const 3.3) (eExp (.mul (.const 0.05) (.add .var (.const 35.0)))))
+    (eExp (.mul (.neg (.const 0.05)) (.add .var (.const 35.0)))))
+
+theorem Km_p_gate_real (v taumax : ℝ) (h1 : (-0.1) * (v + 35.0) ≤ 20) (h2 : 0.05 * (v + 35.0) ≤ 20)
+    (h3 : (-0.05) * (v + 35.0) ≤ 20) : Km.p_gate v taumax = (eval eKmpA v, eval (eKmpB taumax) v) := by
+  unfold Km.p_gate
+  dsimp only
+  rw [save_exp_real _ h1, save_exp_real _ h2, save_exp_real _ h3]
+  rfl
+
+theorem Km_p_gate_dual (v taumax : ℝ) (h1 : (-0.1) * (v + 35.0) ≤ 20) (h2 : 0.05 * (v + 35.0) ≤ 20)
+    (h3 : (-0.05) * (v + 35.0) ≤ 20) :
+    Km.p_gate (⟨v, 1⟩ : Dual ℝ) ⟨taumax, 0⟩ = (evalDual eKmpA ⟨v, 1⟩, evalDual (eKmpB taumax) ⟨v, 1⟩) := by
+  unfold Km.p_gate
+  dsimp only
+  rw [save_exp_dual _ h1, save_exp_dual _ h2, save_exp_dual _ h3]
+  rfl
+
+theorem Km_p_nhds (v : ℝ) (h1 : (-0.1) * (v + 35) < 20) (h2 : 0.05 * (v + 35) < 20) (h3 : (-0.05) * (v + 35) < 20) :
+    {w : ℝ | (-0.1) * (w + 35.0) < 20 ∧ 0.05 * (w + 35.0) < 20 ∧ (-0.05) * (w + 35.0) < 20} ∈ 𝓝 v :=
+  Filter.inter_mem (nhds_lt (fun w => (-0.1) * (w + 35.0)) (by fun_prop) v 20 (by norm_num at h1 ⊢; linarith))
+    (Filter.inter_mem (nhds_lt (fun w => 0.05 * (w + 35.0)) (by fun_prop) v 20 (by norm_num at h2 ⊢; linarith))
+      (nhds_lt (fun w => (-0.05) * (w + 35.0)) (by fun_prop) v 20 (by norm_num at h3 ⊢; linarith)))
+
+theorem Km_p_inf_deriv (v taumax : ℝ) (h1 : (-0.1) * (v + 35) < 20) (h2 : 0.05 * (v + 35) < 20)
+    (h3 : (-0.05) * (v + 35) < 20) :
+    HasDerivAt (fun v => (Km.p_gate v taumax).1) ((Km.p_gate (⟨v, 1⟩ : Dual ℝ) ⟨taumax, 0⟩).1.eps) v := by
+  refine kernel_deriv _ eKmpA _ v _ (Km_p_nhds v h1 h2 h3) ?_ ?_ ?_
+  · intro w hw
+    show (Km.p_gate w taumax).1 = _
+    rw [Km_p_gate_real w taumax hw.1.le hw.2.1.le hw.2.2.le]
+  · rw [Km_p_gate_dual v taumax (by norm_num at h1 ⊢; linarith) (by norm_num at h2 ⊢; linarith)
+      (by norm_num at h3 ⊢; linarith)]
+  · simp only [eKmpA, eExp, Defined, eval, true_and, and_true]
+    positivity
+
+theorem Km_p_tau_deriv (v taumax : ℝ) (h1 : (-0.1) * (v + 35) < 20) (h2 : 0.05 * (v + 35) < 20)
+    (h3 : (-0.05) * (v + 35) < 20) :
+    HasDerivAt (fun v => (Km.p_gate v taumax).2) ((Km.p_gate (⟨v, 1⟩ : Dual ℝ) ⟨taumax, 0⟩).2.eps) v := by
+  refine kernel_deriv _ (eKmpB taumax) _ v _ (Km_p_nhds v h1 h2 h3) ?_ ?_ ?_
+  · intro w hw
+    show (Km.p_gate w taumax).2 = _
+    rw [Km_p_gate_real w taumax hw.1.le hw.2.1.le hw.2.2.le]
+  · rw [Km_p_gate_dual v taumax (by norm_num at h1 ⊢; linarith) (by norm_num at h2 ⊢; linarith)
+      (by norm_num at h3 ⊢; linarith)]
+  · simp only [eKmpB, eExp, Defined, eval, true_and, and_true]
+    positivity
+
+/-! ### CaT.u_gate (`vx` is a real constant) -/
+
+def eCaTuA (vx : ℝ) : Ex :=
+  .div (.const 1.0) (.add (.const 1.0) (eExp (.div (.add (.add .var (.const vx)) (.const 81.0)) (.const 4.0))))
+def eCaTuB (vx : ℝ) : Ex :=
+  .div (.add (.const 30.8) (.add (.const 211.4) (eExp (.div (.add (.add .var (.const vx)) (.const 113.2)) (.const 5.0)))))
+    (.mul (.const 3.7) (.add (.const 1.0) (eExp (.div (.add (.add .var (.const vx)) (.const 84.0)) (.const 3.2)))))
+
+theorem CaT_u_gate_real (v vx : ℝ) (h1 : ((v + vx) + 81.0) / 4.0 ≤ 20) (h2 : ((v + vx) + 113.2) / 5.0 ≤ 20)
+    (h3 : ((v + vx) + 84.0) / 3.2 ≤ 20) : CaT.u_gate v vx = (eval (eCaTuA vx) v, eval (eCaTuB vx) v) := by
+  unfold CaT.u_gate
+  dsimp only
+  rw [save_exp_real _ h1, save_exp_real _ h2, save_exp_real _ h3]
+  rfl
+
+theorem CaT_u_gate_dual (v vx : ℝ) (h1 : ((v + vx) + 81.0) / 4.0 ≤ 20) (h2 : ((v + vx) + 113.2) / 5.0 ≤ 20)
+    (h3 : ((v + vx) + 84.0) / 3.2 ≤ 20) :
+    CaT.u_gate (⟨v, 1⟩ : Dual ℝ) ⟨vx, 0⟩ = (evalDual (eCaTuA vx) ⟨v, 1⟩, evalDual (eCaTuB vx) ⟨v, 1⟩) := by
+  unfold CaT.u_gate
+  dsimp only
+  rw [save_exp_dual _ h1, save_exp_dual _ h2, save_exp_dual _ h3]
+  rfl
+
+theorem CaT_u_nhds (v vx : ℝ) (h1 : ((v + vx) + 81) / 4 < 20) (h2 : ((v + vx) + 113.2) / 5 < 20)
+    (h3 : ((v + vx) + 84) / 3.2 < 20) :
+    {w : ℝ | ((w + vx) + 81.0) / 4.0 < 20 ∧ ((w + vx) + 113.2) / 5.0 < 20 ∧ ((w + vx) + 84.0) / 3.2 < 20} ∈ 𝓝 v :=
+  Filter.inter_mem (nhds_lt (fun w => ((w + vx) + 81.0) / 4.0) (by fun_prop) v 20 (by norm_num at h1 ⊢; linarith))
+    (Filter.inter_mem (nhds_lt (fun w => ((w + vx) + 113.2) / 5.0) (by fun_prop) v 20 (by norm_num at h2 ⊢; linarith))
+      (nhds_lt (fun w => ((w + vx) + 84.0) / 3.2) (by fun_prop) v 20 (by norm_num at h3 ⊢; linarith)))
+
+theorem CaT_u_inf_deriv (v vx : ℝ) (h1 : ((v + vx) + 81) / 4 < 20) (h2 : ((v + vx) + 113.2) / 5 < 20)
+    (h3 : ((v + vx) + 84) / 3.2 < 20) :
+    HasDerivAt (fun v => (CaT.u_gate v vx).1) ((CaT.u_gate (⟨v, 1⟩ : Dual ℝ) ⟨vx, 0⟩).1.eps) v := by
+  refine kernel_deriv _ (eCaTuA vx) _ v _ (CaT_u_nhds v vx h1 h2 h3) ?_ ?_ ?_
+  · intro w hw
+    show (CaT.u_gate w vx).1 = _
+    rw [CaT_u_gate_real w vx hw.1.le hw.2.1.le hw.2.2.le]
+  · rw [CaT_u_gate_dual v vx (by norm_num at h1 ⊢; linarith) (by norm_num at h2 ⊢; linarith)
+      (by norm_num at h3 ⊢; linarith)]
+  · simp only [eCaTuA, eExp, Defined, eval, true_and, and_true]
+    refine ⟨by norm_num, ?_⟩
+    positivity
+
+theorem CaT_u_tau_deriv (v vx : ℝ) (h1 : ((v + vx) + 81) / 4 < 20) (h2 : ((v + vx) + 113.2) / 5 < 20)
+    (h3 : ((v + vx) + 84) / 3.2 < 20) :
+    HasDerivAt (fun v => (CaT.u_gate v vx).2) ((CaT.u_gate (⟨v, 1⟩ : Dual ℝ) ⟨vx, 0⟩).2.eps) v := by
+  refine kernel_deriv _ (eCaTuB vx) _ v _ (CaT_u_nhds v vx h1 h2 h3) ?_ ?_ ?_
+  · intro w hw
+    show (CaT.u_gate w vx).2 = _
+    rw [CaT_u_gate_real w vx hw.1.le hw.2.1.le hw.2.2.le]
+  · rw [CaT_u_gate_dual v vx (by norm_num at h1 ⊢; linarith) (by norm_num at h2 ⊢; linarith)
+      (by norm_num at h3 ⊢; linarith)]
+  · simp only [eCaTuB, eExp, Defined, eval, true_and, and_true]
+    refine ⟨by norm_num, by norm_num, ?_⟩
+    positivity
+
 end JaxleyVerif.Props.C05
